@@ -36,6 +36,7 @@ type Stats struct {
 	XDisagree  int
 	XUnknown   int
 	XSeconds   float64
+	XPruneSeen int // pruning unsat verdicts seen (every VERIF_XCHECK_EVERY-th is cross-checked in mode all)
 }
 
 func (s *Stats) Add(o Stats) {
@@ -51,6 +52,7 @@ func (s *Stats) Add(o Stats) {
 	s.XDisagree += o.XDisagree
 	s.XUnknown += o.XUnknown
 	s.XSeconds += o.XSeconds
+	s.XPruneSeen += o.XPruneSeen
 }
 
 // Solver is one persistent SMT-LIB2 process. All definitions and assertions
